@@ -140,13 +140,21 @@ def run(ctx: fw.Ctx) -> int:
         body0 = G.body()
         # mostly valid: the body often already carries a record of this key or of a sibling key
         raw_body = body0
-        if r.random() < 0.6:
+        pre_state = r.random()
+        if pre_state < 0.75:
             pre = patches.Patch({})
             try:
-                storage.store(key=r.choice([key, G.handler_id()]), record=G.record(), body=bodies.Body(body0), patch=pre)
+                if pre_state < 0.2:     # the very record that is about to be stored is on the object already
+                    storage.store(key=key, record=record, body=bodies.Body(body0), patch=pre)
+                    ctx.count('pre_state', 'same-record-on-object')
+                else:
+                    storage.store(key=r.choice([key, G.handler_id()]), record=G.record(), body=bodies.Body(body0), patch=pre)
+                    ctx.count('pre_state', 'other-record-on-object')
                 raw_body = canon.merge7386(body0, dict(pre))
             except (TypeError, KeyError, AttributeError):
                 raw_body = body0
+        else:
+            ctx.count('pre_state', 'nothing-stored')
         body = bodies.Body(raw_body)
         drs = cq.cbool(raw_body.get('kind') == 'ReplicaSet'
                        and any(o.get('kind') == 'Deployment' for o in raw_body.get('metadata', {}).get('ownerReferences', [])))
@@ -187,8 +195,25 @@ def run(ctx: fw.Ctx) -> int:
 
         # ---------- store ----------
         patch0 = patches.Patch({})
-        if r.random() < 0.3:   # a pending patch with unrelated content
+        pend = r.random()
+        if pend < 0.25:   # a pending patch with unrelated content
             patch0 = patches.Patch({'metadata': {'annotations': {'pending': 'x'}}, 'status': {'other': 1}})
+            ctx.count('pending_patch', 'unrelated')
+        elif pend < 0.6:  # the cycle's patch is shared: an earlier operation of the same cycle on the very same key is pending
+            op = r.choice(['purge', 'store-other', 'store-same'])
+            try:
+                if op == 'purge':
+                    storage.purge(key=key, body=body, patch=patch0)
+                elif op == 'store-other':
+                    storage.store(key=key, record=G.record(), body=body, patch=patch0)
+                else:
+                    storage.store(key=key, record=record, body=body, patch=patch0)
+                ctx.count('pending_patch', 'own-key:' + op)
+            except (TypeError, KeyError, AttributeError, ValueError):
+                patch0 = patches.Patch({})
+                ctx.count('pending_patch', 'none')
+        else:
+            ctx.count('pending_patch', 'none')
         p_in = copy.deepcopy(dict(patch0))
         kind, _ = canon.run_res(lambda: storage.store(key=key, record=record, body=body, patch=patch0))
         p_store = copy.deepcopy(dict(patch0))
